@@ -2,9 +2,9 @@ package main
 
 import (
 	"fmt"
-	"os"
 	"go/types"
 	"io"
+	"os"
 	"sort"
 	"strings"
 	"time"
@@ -14,37 +14,37 @@ import (
 
 // Run is one execution of one harness (symbolic or concrete).
 type Run struct {
-	in          *Interp
-	ts          *TermStore
-	solver      *Solver
-	stats       *SolverStats
-	base        map[int]*Object
-	globals     map[*ssa.Global]int
-	work        []*Path
-	nextPath    int
-	epochs      int
-	maxSteps    int
-	maxEnum     int
-	maxPaths    int
-	defUnwind   int
-	steps       int
-	forks       int
-	ifconv      int
+	in                 *Interp
+	ts                 *TermStore
+	solver             *Solver
+	stats              *SolverStats
+	base               map[int]*Object
+	globals            map[*ssa.Global]int
+	work               []*Path
+	nextPath           int
+	epochs             int
+	maxSteps           int
+	maxEnum            int
+	maxPaths           int
+	defUnwind          int
+	steps              int
+	forks              int
+	ifconv             int
 	forbidGlobalWrites bool
-	varCache    map[int]map[int]bool
-	noSlicing   bool
-	fnUsed      map[string]bool
-	notes       []string
-	traceW      io.Writer
-	finalResult Value
-	intrCache   map[*ssa.Function]intrinsicFn
-	baseNextObj int
-	initNextObj int
-	wallLimit   time.Duration
-	thorough    bool
-	shard       int
-	shards      int
-	deadline    time.Time
+	varCache           map[int]map[int]bool
+	noSlicing          bool
+	fnUsed             map[string]bool
+	notes              []string
+	traceW             io.Writer
+	finalResult        Value
+	intrCache          map[*ssa.Function]intrinsicFn
+	baseNextObj        int
+	initNextObj        int
+	wallLimit          time.Duration
+	thorough           bool
+	shard              int
+	shards             int
+	deadline           time.Time
 
 	// concrete mode
 	concrete  bool
